@@ -4,13 +4,21 @@ C15 — property theorems (statements only; helper lemmas are in `Proofs*.lean`)
 Every theorem in this module is an obligation listed in evidence/C15.json with its axioms.
 
 Vocabulary (all defined in `Model.lean`):
+* `memImpl c` — transcription of db/memory (current tree; `c.cbUnlocked` = whether `Get` runs its
+  callback outside the store lock, probed on the real code);
+* `pebImpl` — transcription of the Pebble wrappers db/pebblev2 = db/pebble over an abstract engine;
 * `specImpl` — the contract (ordered map; batch = op log applied at `Write`; iterator over
   `[prefix, UpperBound(prefix))` with positions unpositioned / before / at i / after);
-* `memImpl cfg` — transcription of db/memory; `cfg : Cfg` says which of the four iterator repairs
-  are present in the tree (`Cfg.asFound` = the pinned commit, all flags false);
 * `run M w ops` — the outputs of an op sequence, `exec M w ops` — the final state;
-* `inContract cfg w ops` — the explicit, decidable contract boundary (`stepOK`, per step, evaluated
-  on the contract's own state).
+* `inDocumented w ops` — every step is inside the documented contract (`documented`, no reference to
+  any implementation); `inContract c w ops` — additionally db/memory is not on one of its two known
+  defects (`memOK c`: re-entrant `Get` callback; `f5Free`: F5, decided exactly).
+
+Frame facts that hold for every `Impl` by construction of `step` (an unwritten batch does not touch
+the store, a snapshot / iterator table entry is not touched by other ops, a failing helper callback
+returns the state unchanged) are NOT listed as obligations: they say nothing about the Go code. Those
+clauses of the property are carried by the refinement theorems below (sequences with batches,
+snapshots, iterators, helpers) and by the harness.
 -/
 namespace Juno.C15.Props
 open Juno.C15
@@ -18,8 +26,7 @@ open Juno.C15
 /-! ## dbutils.UpperBound -/
 
 /-- `dbutils.UpperBound` is exact: a key has prefix `p` iff it lies in `[p, upperBound p)`,
-where a missing bound (`nil`: empty or all-`0xff` prefix) means "unbounded above". This is the
-fact every prefix scan of every backend relies on. -/
+where a missing bound (`nil`: empty or all-`0xff` prefix) means "unbounded above". -/
 theorem upperBound_spec (p k : Key) :
     hasPrefix k p = true ↔
       (lexLe p k = true ∧ (match upperBound p with | none => True | some u => lexLt k u = true)) :=
@@ -29,127 +36,84 @@ theorem upperBound_spec (p k : Key) :
 theorem upperBound_nil_iff (p : Key) : upperBound p = none ↔ ∀ b ∈ p, b = 255 :=
   upperBound_none_iff p
 
-/-! ## Refinement: db/memory gives the outputs of the contract -/
+/-! ## The backends give identical results -/
+
+/-- The Pebble wrappers (positioned flag, bound construction, `ErrNotFound` translation, size
+counter, indexed flag) implement the contract on EVERY op sequence inside the documented contract —
+full strength, no defect exclusion. (The engine underneath is an assumption, compared by the
+harness.) -/
+theorem pebble_wrapper_refines_contract (ops : List Op) (h : inDocumented World.init ops = true) :
+    run pebImpl World.init ops = run specImpl World.init ops :=
+  (run_sim pebSim ops _ _ (R_init pebSim) (by rw [inBoundary_peb]; exact h)).1
 
 /-
-FULL-STRENGTH STATEMENT (does NOT hold for the code as found; see the `memory_defect_*` witnesses):
+FULL-STRENGTH STATEMENT (does NOT hold for the current code; see the two `memory_defect_*` witnesses):
 
-  theorem mem_refines_spec (ops : List Op) (h : documented ops) :
-      run (memImpl Cfg.asFound) World.init ops = run specImpl World.init ops
+  theorem mem_refines_spec (ops) (h : inDocumented World.init ops = true) :
+      run (memImpl ⟨false⟩) World.init ops = run specImpl World.init ops
 
-where `documented` only rules out what db/iterator.go, db/batch.go and Pebble rule out (`Value()`
-of an invalid iterator, handles used after `Close` of the store, closing the store / a batch / a
-snapshot with live iterators on it, `Size()` after `DeleteRange`).
-What is proved instead, for EVERY op sequence and every variant `cfg` of db/memory: equality of all
-outputs inside the boundary `inContract cfg`, which in addition excludes
-  (1) `NewIterator(p, true)`  with `UpperBound(p) = nil`      unless `cfg.nilUbFix`,
-  (2) `NewIterator(p, false)` with `p ≠ ""`                   unless `cfg.lowerBoundFix`,
-  (3) `Prev` on an iterator that is before the first key      unless `cfg.prevFix`,
-  (4) `Next` on an iterator that is past the last key         unless `cfg.nextClamp`,
-  (5) changing the store (or closing it) while another live batch holds a `DeleteRange` — for
-      every `cfg`: db/memory materialises the range when `DeleteRange` is called.
-With `Cfg.repaired` (proposed-fixes/C15-memory-iterator.diff applied) only (5) is missing.
+Proved instead, for EVERY op sequence: equality of all outputs inside `inContract c`, which besides
+the documented contract excludes exactly
+  (F5)  steps after which, for some live batch, the point deletes db/memory recorded for its
+        `DeleteRange` calls no longer have the effect of those ranges on the present store
+        (`f5Free`; `f5_boundary_is_exact` shows it is the precise condition, `f5_boundary_not_coarse`
+        that a store write under a pending but unaffected range stays inside);
+  (RE)  `Get` with a callback that writes to the store, unless `c.cbUnlocked`.
 -/
-theorem mem_refines_spec_partial (cfg : Cfg) (ops : List Op)
-    (h : inContract cfg World.init ops = true) :
-    run (memImpl cfg) World.init ops = run specImpl World.init ops :=
-  (run_sim cfg ops _ _ R_init h).1
+theorem mem_refines_spec_partial (c : MemCfg) (ops : List Op)
+    (h : inContract c World.init ops = true) :
+    run (memImpl c) World.init ops = run specImpl World.init ops :=
+  (run_sim (memSim c) ops _ _ (R_init (memSim c)) (by rw [inBoundary_mem]; exact h)).1
 
-/-- the same from any pair of related states (e.g. in the middle of a sequence) -/
-theorem mem_refines_spec_from_partial (cfg : Cfg) (ops : List Op)
-    (wm : World MBatch MIter) (ws : World SBatch SIter) (hR : R wm ws)
-    (h : inContract cfg ws ops = true) :
-    run (memImpl cfg) wm ops = run specImpl ws ops :=
-  (run_sim cfg ops wm ws hR h).1
+/-- THE PROPERTY: db/memory and the Pebble wrappers answer every op of every sequence identically
+(inside the boundary above). -/
+theorem memory_equals_pebble_partial (c : MemCfg) (ops : List Op)
+    (h : inContract c World.init ops = true) :
+    run (memImpl c) World.init ops = run pebImpl World.init ops := by
+  rw [mem_refines_spec_partial c ops h,
+    pebble_wrapper_refines_contract ops (inDocumented_of_inContract c ops _ h)]
 
-/-! ### the five places where db/memory as found leaves the contract: concrete witnesses -/
-
-/-- (1) `put ffff 06; scan db ffff withUpperBound` — memory `[]`, contract `[ffff=06]` -/
-theorem memory_defect_nil_upper_bound :
-    run (memImpl Cfg.asFound) World.init [.put [255, 255] [6], .scan .db [255, 255] true] ≠
-    run specImpl World.init [.put [255, 255] [6], .scan .db [255, 255] true] := by decide
-
-/-- (2) `put 02 04; scan db 01 noUpperBound` — memory `[]`, contract `[02=04]` -/
-theorem memory_defect_prefix_filter :
-    run (memImpl Cfg.asFound) World.init [.put [2] [4], .scan .db [1] false] ≠
-    run specImpl World.init [.put [2] [4], .scan .db [1] false] := by decide
-
-/-- (3) `First, Prev, Prev` — memory is back on the first key, contract stays invalid -/
-theorem memory_defect_prev_before_first :
-    run (memImpl Cfg.asFound) World.init [.put [0] [1], .iter .db [] false, .first 0, .prev 0, .prev 0] ≠
-    run specImpl World.init [.put [0] [1], .iter .db [] false, .first 0, .prev 0, .prev 0] := by decide
-
-/-- (4) `Seek(past end), Next, Prev` — memory returns true on an invalid position -/
-theorem memory_defect_next_past_end :
-    run (memImpl Cfg.asFound) World.init [.put [0] [1], .iter .db [] false, .seek 0 [9], .next 0, .prev 0] ≠
-    run specImpl World.init [.put [0] [1], .iter .db [] false, .seek 0 [9], .next 0, .prev 0] := by decide
-
-/-- (5) `b.DeleteRange("", ff); db.Put(01); b.Write()` — `01` survives on memory (every `cfg`) -/
+/-- F5 witness: `b.DeleteRange("", ff); db.Put(01); b.Write(); scan` — `01` survives on memory. -/
 theorem memory_defect_batch_deleterange :
-    run (memImpl Cfg.repaired) World.init
+    run (memImpl ⟨true⟩) World.init
       [.newBatch false, .bdelRange 0 [] [255], .put [1] [9], .bwrite 0, .scan .db [] false] ≠
-    run specImpl World.init
+    run pebImpl World.init
       [.newBatch false, .bdelRange 0 [] [255], .put [1] [9], .bwrite 0, .scan .db [] false] := by decide
 
-/-- with the iterator repairs, the witnesses (1)–(4) are inside the boundary (so
-`mem_refines_spec_partial Cfg.repaired` covers them) … -/
-theorem repaired_covers_iterator_witnesses :
-    inContract Cfg.repaired World.init [.put [255, 255] [6], .scan .db [255, 255] true] = true ∧
-    inContract Cfg.repaired World.init [.put [2] [4], .scan .db [1] false] = true ∧
-    inContract Cfg.repaired World.init [.put [0] [1], .iter .db [] false, .first 0, .prev 0, .prev 0] = true ∧
-    inContract Cfg.repaired World.init [.put [0] [1], .iter .db [] false, .seek 0 [9], .next 0, .prev 0] = true := by
-  decide
+/-- RE witness: `db.Put(01); db.Get(01, func(v) { return db.Put(02, v) })` never returns on memory
+(`hang`), returns the value and stores `02` on Pebble. -/
+theorem memory_defect_get_callback_write :
+    run (memImpl ⟨false⟩) World.init [.put [1] [7], .getw .db [1] [2] [7], .has .db [2]] ≠
+    run pebImpl World.init [.put [1] [7], .getw .db [1] [2] [7], .has .db [2]] := by decide
 
-/-- … and as found they are outside of it, as is (5) for every variant. -/
-theorem asFound_excludes_witnesses :
-    inContract Cfg.asFound World.init [.put [255, 255] [6], .scan .db [255, 255] true] = false ∧
-    inContract Cfg.asFound World.init [.put [2] [4], .scan .db [1] false] = false ∧
-    inContract Cfg.asFound World.init [.put [0] [1], .iter .db [] false, .first 0, .prev 0, .prev 0] = false ∧
-    inContract Cfg.asFound World.init [.put [0] [1], .iter .db [] false, .seek 0 [9], .next 0, .prev 0] = false ∧
-    inContract Cfg.repaired World.init
-      [.newBatch false, .bdelRange 0 [] [255], .put [1] [9], .bwrite 0, .scan .db [] false] = false := by
-  decide
+/-- the two witnesses are outside the boundary; with `cbUnlocked` the second one is inside -/
+theorem witnesses_outside_boundary :
+    inContract ⟨true⟩ World.init
+      [.newBatch false, .bdelRange 0 [] [255], .put [1] [9], .bwrite 0, .scan .db [] false] = false ∧
+    inContract ⟨false⟩ World.init [.put [1] [7], .getw .db [1] [2] [7], .has .db [2]] = false ∧
+    inContract ⟨true⟩ World.init [.put [1] [7], .getw .db [1] [2] [7], .has .db [2]] = true := by decide
+
+/-- The F5 clause is the exact condition: for a db/memory batch that recorded what the contract's
+ghost says (`writes = mlog`), flushing it onto a store `d` gives the contract's result iff
+`batchAgrees d` — so a step excluded by `f5Free` is one after which `Write` (or a scan of the batch)
+differs between memory and Pebble, and a step not excluded is one after which it does not. -/
+theorem f5_boundary_is_exact (mb : MBatch) (sb : SBatch) (d : KV)
+    (hw : mb.writes = sb.mlog.map LogOp.toWrite) (hp : pointOnly sb.mlog) :
+    mb.flush d = applyLog d sb.log ↔ batchAgrees d sb = true := by
+  unfold MBatch.flush
+  rw [hw, flush_mlog _ hp d]
+  simp [batchAgrees]
+
+/-- … and it is not coarse: store writes while another live batch holds a `DeleteRange` stay inside
+the boundary as long as they do not land in a range the batch emptied (the reviewer's example and a
+range that misses the written key), and the outputs agree. -/
+theorem f5_boundary_not_coarse :
+    inContract ⟨false⟩ World.init [.newBatch false, .bdelRange 0 [5] [5], .put [1] [9], .bwrite 0, .scan .db [] false] = true ∧
+    inContract ⟨false⟩ World.init
+      [.put [3] [3], .newBatch true, .bdelRange 0 [2] [4], .put [7] [9], .del [3], .get (.batch 0) [7] false,
+       .bwrite 0, .scan .db [] false] = true := by decide
 
 /-! ## Batches -/
-
-/-- All-or-nothing, part 1: no operation other than a direct write, `Write` of a batch, a
-successful `Update`/`Write` helper or `Close` changes the store — in particular nothing a batch
-records is visible in the store before `Write` (any implementation of the interface, any sequence). -/
-theorem batch_atomic_nothing_before_write {B I : Type} (M : Impl B I) (w : World B I) (ops : List Op)
-    (h : ops.all (fun o => !o.commits) = true) : (exec M w ops).db = w.db :=
-  exec_db_of_no_commit M ops w h
-
-/-- All-or-nothing, part 2 (db/memory): `Write` replaces the store content, in one step, by the
-content with every recorded write applied in order, and closes the batch. -/
-theorem batch_atomic_write_applies_all (cfg : Cfg) (w : World MBatch MIter) (b : Nat) (x : MBatch) (i : Bool)
-    (d : KV) (hb : w.batches b = some (x, i)) (hd : w.db = some d) :
-    (step (memImpl cfg) w (.bwrite b)).1.db = some (x.writes.foldl MWrite.apply d) ∧
-    (step (memImpl cfg) w (.bwrite b)).1.batches b = none := by
-  simp [step, hb, hd, memImpl, MBatch.flush]
-
-/-- … and that content is the contract's: for a batch built by any list of `Put`/`Delete`/
-`DeleteRange` calls over an unchanged store `d`, flushing the db/memory batch gives exactly the op
-log applied to `d` in order. -/
-theorem batch_atomic (cfg : Cfg) (d : KV) (hd : Sorted d) (log : List LogOp) :
-    (memBuild cfg d log (memImpl cfg).bempty).flush d = applyLog d log := by
-  obtain ⟨sz, h⟩ := memBuild_RB cfg d hd log _ _ (RB_empty (cfg := cfg) d)
-  simpa [specImpl] using h.2.1
-
-/-- Later operations win (contract log): the last operation of a batch decides the key it touches
-and leaves every other key as the earlier operations left it. -/
-theorem later_wins (d : KV) (log : List LogOp) (k : Key) (v : Val) (s e k' : Key) :
-    (applyLog d (log ++ [.put k v])).get k = some v ∧
-    (applyLog d (log ++ [.del k])).get k = none ∧
-    (inRange s e k = true → (applyLog d (log ++ [.delRange s e])).get k = none) ∧
-    (k ≠ k' → (applyLog d (log ++ [.put k v])).get k' = (applyLog d log).get k') ∧
-    (k ≠ k' → (applyLog d (log ++ [.del k])).get k' = (applyLog d log).get k') ∧
-    (inRange s e k' = false → (applyLog d (log ++ [.delRange s e])).get k' = (applyLog d log).get k') := by
-  simp only [applyLog_append, LogOp.apply, SMap.get_put, SMap.get_del, SMap.get_delRange]
-  refine ⟨by simp, by simp, ?_, ?_, ?_, ?_⟩
-  · intro h; simp [h]
-  · intro h; simp [h]
-  · intro h; simp [h]
-  · intro h; simp [h]
 
 /-- Later operations win (db/memory `writes` list): after `Write`, a key holds what the LAST entry
 of the batch for that key says (value, or absent for a delete); untouched keys keep the store's. -/
@@ -162,83 +126,118 @@ theorem later_wins_memory (b : MBatch) (d : KV) (k : Key) :
   rw [foldl_apply_get]
   cases lastWrite b.writes k <;> rfl
 
-/-- Indexed batches read their own writes over the store: for a db/memory batch built by any list
-of calls over store content `d`, `batch.Get(k)` (write map first, then the store) returns what the
-contract says — the lookup of `k` in `d` with the batch's op log applied. -/
-theorem indexed_reads_own_writes (cfg : Cfg) (d : KV) (hd : Sorted d) (log : List LogOp) (k : Key) :
-    (memBuild cfg d log (memImpl cfg).bempty).get d k = (applyLog d log).get k := by
-  obtain ⟨sz, h⟩ := memBuild_RB cfg d hd log _ _ (RB_empty (cfg := cfg) d)
-  simpa [specImpl] using RB_get h k
+/-- `Write` = the op log: for a db/memory batch built by any list of `Put`/`Delete`/`DeleteRange`
+calls over a store that does not change meanwhile, flushing gives the log applied in order. (Over a
+store that changes, this is `mem_refines_spec_partial`; it fails exactly on F5.) -/
+theorem batch_flush_equals_log_fixed_store (d : KV) (hd : Sorted d) (log : List LogOp) :
+    (memBuild d log ((memImpl ⟨false⟩).bempty true)).flush d = applyLog d log := by
+  obtain ⟨sb', h1, h2⟩ := memBuild_rb d hd log _ _ ((memSim ⟨false⟩).empty true (some d))
+  rw [rbM_flush h2 d, h2.2.2.2.1 d rfl, h1]; rfl
 
-/-! ## Snapshots, helpers -/
+/-- Indexed batches read their own writes over the store: `batch.Get(k)` of db/memory (write map
+first, then the store) = lookup of `k` in the store with the batch's op log applied. -/
+theorem indexed_reads_own_writes (d : KV) (hd : Sorted d) (log : List LogOp) (k : Key) :
+    (memBuild d log ((memImpl ⟨false⟩).bempty true)).get d k = (applyLog d log).get k := by
+  obtain ⟨sb', h1, h2⟩ := memBuild_rb d hd log _ _ ((memSim ⟨false⟩).empty true (some d))
+  rw [rbM_get k h2, h1]; rfl
 
-/-- A snapshot is unaffected by anything that happens later: whatever sequence of operations runs
-(on any implementation), as long as that snapshot is not closed, reads from it answer from the
-content captured at creation. -/
-theorem snapshot_isolated {B I : Type} (M : Impl B I) (w : World B I) (s : Nat) (d : KV) (ops : List Op)
-    (hs : s < w.ns) (hd : w.snaps s = some d) (hne : ∀ op ∈ ops, op ≠ .sclose s) (k : Key) (fail : Bool)
-    (p : Key) (u : Bool) :
-    (step M (exec M w ops) (.get (.snap s) k fail)).2 = .r (readGet (d.get k) fail) ∧
-    (step M (exec M w ops) (.has (.snap s) k)).2 = .r (.bool (d.get k).isSome) ∧
-    (step M (exec M w ops) (.scan (.snap s) p u)).2 = .r (.list (scan M d p u)) := by
-  have := exec_snap_stable M ops w s hs hne
-  simp [step, World.read, this, hd]
+/-! ## Iteration (all three implementations, forward and backward) -/
 
-/-- the snapshot taken by `NewSnapshot` holds the store content of that moment -/
-theorem snapshot_captures {B I : Type} (M : Impl B I) (w : World B I) (d : KV) (hd : w.db = some d) :
-    (step M w .snap).1.snaps w.ns = some d ∧ w.ns < (step M w .snap).1.ns := by
-  simp [step, hd]
-
-/-- Copy-on-iterate: an iterator is unaffected by anything that happens later — whatever sequence
-of operations runs (on any implementation) that does not position or close that iterator, its keys,
-values and position stay as they were (in particular after writes to the store it was created from). -/
-theorem iterator_isolated {B I : Type} (M : Impl B I) (w : World B I) (i : Nat) (ops : List Op)
-    (hi : i < w.ni) (hne : ops.all (fun o => !o.onIter i) = true) :
-    (exec M w ops).iters i = w.iters i :=
-  exec_iter_stable M ops w i hi hne
-
-/-- `Update` / `Write` helper whose callback fails: nothing at all is applied — the whole state
-is unchanged, whatever the callback did with its batch. -/
-theorem failed_callback_no_effect {B I : Type} (M : Impl B I) (w : World B I) (idx : Bool) (ops : List BOp) :
-    (step M w (.update idx true ops)).1 = w := by
-  simp only [step]
-  cases w.db <;> rfl
-
-/-- … and when it succeeds, exactly the batch built by the callback is applied (db/memory = contract). -/
-theorem successful_callback_applies_batch (cfg : Cfg) (w : World MBatch MIter) (d : KV) (hd : w.db = some d)
-    (idx : Bool) (ops : List BOp) :
-    (step (memImpl cfg) w (.update idx false ops)).1.db =
-      some ((runInner (memImpl cfg) d idx ops (memImpl cfg).bempty).1.flush d) := by
-  simp [step, hd, memImpl]
-
-/-! ## Iteration -/
-
-/-- Iterating (`First`, then `Next` until invalid) yields exactly the entries of the store whose key
-lies in `[p, UpperBound(p))` (no upper bound if not requested or nil), in strictly increasing key
-order — for the contract on all arguments, for db/memory on the arguments inside the boundary. -/
-theorem iteration_exact (cfg : Cfg) (c : KV) (hc : Sorted c) (p : Key) (u : Bool) :
-    let out := scan specImpl c p u
+/-- `First`, then `Next` until invalid, yields exactly the entries of the store whose key lies in
+`[p, UpperBound(p))` (no upper bound if not requested or nil), in strictly increasing key order —
+on db/memory, on the Pebble wrappers and in the contract, for all arguments. -/
+theorem iteration_exact (c : MemCfg) (content : KV) (hc : Sorted content) (p : Key) (u : Bool) :
+    let out := content.filter (fun x => specBound p u x.1)
+    scan (memImpl c) content p u = out ∧ scan pebImpl content p u = out ∧ scan specImpl content p u = out ∧
     out.Pairwise (fun a b => lexLt a.1 b.1 = true) ∧
     (∀ k v, (k, v) ∈ out ↔
-      (c.get k = some v ∧ lexLe p k = true ∧
-        (u = true → ∀ w, upperBound p = some w → lexLt k w = true))) ∧
-    (iterArgsOK cfg p u = true → scan (memImpl cfg) c p u = out) := by
-  refine ⟨?_, ?_, fun hok => scan_sim cfg c p u hok⟩
-  · rw [spec_scan]; exact hc.filter _
-  · intro k v
-    rw [spec_scan, List.mem_filter, ← hc.get_eq_some]
-    simp only [specBound, Bool.and_eq_true]
-    cases u
-    · simp
-    · cases hub : upperBound p <;> simp [hub]
+      (content.get k = some v ∧ lexLe p k = true ∧
+        (u = true → ∀ w, upperBound p = some w → lexLt k w = true))) := by
+  refine ⟨by rw [scan_sim (memSim c), spec_scan], by rw [scan_sim pebSim, spec_scan], spec_scan _ _ _,
+    hc.filter _, ?_⟩
+  intro k v
+  rw [List.mem_filter, ← hc.get_eq_some]
+  simp only [specBound, engineBound, Bool.and_eq_true]
+  cases u
+  · simp
+  · cases hub : upperBound p <;> simp [hub]
 
-/-- stores reachable by the contract are sorted (so `iteration_exact` applies to them) -/
-theorem reachable_store_sorted (ops : List Op) (d : KV)
-    (h : (exec specImpl World.init ops).db = some d) : Sorted d :=
-  spec_exec_sorted ops World.init (by intro d e; cases e; exact Sorted.nil) d h
+/-- Reverse iteration (`Seek(t)`, then `Prev` until invalid — the shape `valueAt` /
+`lastUpdatedBlockNumber` use): yields exactly the entries in range with key `< t`, greatest first —
+on all three. With `t` above every key this is the whole range backwards. -/
+theorem reverse_iteration_exact (c : MemCfg) (content : KV) (hc : Sorted content) (p : Key) (u : Bool) (t : Key) :
+    let out := ((content.filter (fun x => specBound p u x.1)).filter (fun x => lexLt x.1 t)).reverse
+    rscan (memImpl c) content p u t = out ∧ rscan pebImpl content p u t = out ∧
+    rscan specImpl content p u t = out := by
+  have hs : rscan specImpl content p u t =
+      ((content.filter (fun x => specBound p u x.1)).filter (fun x => lexLt x.1 t)).reverse := by
+    rw [spec_rscan, take_seekIdx_eq_filter t _ (hc.filter _)]
+  exact ⟨by rw [rscan_sim (memSim c), hs], by rw [rscan_sim pebSim, hs], hs⟩
+
+/-- `Seek(t)` then `Prev` lands on the greatest key `< t` of the range (in particular: seek past the
+end, then `Prev`, gives the last key), or is invalid if there is none — db/memory and wrappers. -/
+theorem prev_greatest_below (c : MemCfg) (content : KV) (hc : Sorted content) (p : Key) (u : Bool) (t : Key) :
+    let below := (content.filter (fun x => specBound p u x.1)).filter (fun x => lexLt x.1 t)
+    (memImpl c).icur ((memImpl c).iprev ((memImpl c).iseek ((memImpl c).imk content p u) t).1).1 = below.getLast? ∧
+    pebImpl.icur (pebImpl.iprev (pebImpl.iseek (pebImpl.imk content p u) t).1).1 = below.getLast? := by
+  have key : ∀ {B I : Type} {M : Impl B I} (S : Sim M),
+      M.icur (M.iprev (M.iseek (M.imk content p u) t).1).1 =
+        ((content.filter (fun x => specBound p u x.1)).filter (fun x => lexLt x.1 t)).getLast? := by
+    intro B I M S
+    have h1 := S.seek t (S.mkIter content p u)
+    have h2 := S.prev h1.1
+    rw [S.cur h2.1, ← take_seekIdx_eq_filter t _ (hc.filter _)]
+    generalize hks : content.filter (fun x => specBound p u x.1) = ks
+    have e0 : specImpl.imk content p u = ⟨ks, .unpos⟩ := by simp [specImpl, hks]
+    rw [e0]
+    have hle := seekIdx_le t ks
+    simp only [SIter.seek]
+    generalize seekIdx t ks = j at hle ⊢
+    cases j with
+    | zero =>
+      by_cases hn : 0 < ks.length
+      · simp [SIter.seek, SIter.prev, SIter.cur, hn]
+      · have h0 : ks = [] := by
+          cases ks with
+          | nil => rfl
+          | cons x r => simp at hn
+        subst h0
+        simp [SIter.seek, SIter.prev, SIter.last, SIter.cur]
+    | succ i =>
+      have hi : i < ks.length := by omega
+      have hlast : (ks.take (i + 1)).getLast? = ks[i]? := by
+        rw [List.getLast?_eq_getElem?]
+        simp [List.length_take, Nat.min_eq_left (by omega : i + 1 ≤ ks.length), List.getElem?_take]
+      rw [hlast]
+      by_cases hn : i + 1 < ks.length
+      · simp [SIter.seek, SIter.prev, SIter.cur, hn]
+      · have hl : ks.length - 1 = i := by omega
+        have hpos : 0 < ks.length := by omega
+        simp [SIter.seek, SIter.prev, SIter.last, SIter.cur, hn, hpos, hl]
+  exact ⟨key (memSim c), key pebSim⟩
+
+/-- `Next`: once invalid the iterator remains invalid (db/iterator.go) — for every db/memory resp.
+wrapper iterator state that represents a contract state (all reachable ones do). -/
+theorem next_invalid_stays_invalid (mi : MIter) (pi : PIter) (si si' : SIter) (hm : RI mi si) (hp : RPI pi si') :
+    (mi.next.2 = false → mi.next.1.next.2 = false) ∧ (pi.next.2 = false → pi.next.1.next.2 = false) := by
+  constructor
+  · intro h
+    have h1 := next_sim hm
+    have h2 := next_sim h1.1
+    rw [h2.2]
+    rw [h1.2] at h
+    have := snext_after_stays si (by simpa using h)
+    simp [this]
+  · intro h
+    have h1 := pnext_sim hp
+    have h2 := pnext_sim h1.1
+    rw [h2.2]
+    rw [h1.2] at h
+    have := snext_after_stays si' (by simpa using h)
+    simp [this]
 
 /-- `Seek(t)` lands on the least key `>= t` of the iterator's range, or makes the iterator invalid
-when every key is `< t` (db/memory iterator; the contract iterator has the same index). -/
+when every key is `< t` (db/memory iterator). -/
 theorem seek_least (it : MIter) (hs : Sorted it.keys) (t : Key) :
     match (it.seek t).1.kv with
     | some (k, _) => lexLe t k = true ∧ ∀ x ∈ it.keys, lexLe t x.1 = true → lexLe k x.1 = true
@@ -248,7 +247,7 @@ theorem seek_least (it : MIter) (hs : Sorted it.keys) (t : Key) :
   by_cases h : seekIdx t it.keys < it.keys.length
   · have hkv : (it.seek t).1.kv = some (it.keys[seekIdx t it.keys]) := by
       have h2 : ((seekIdx t it.keys : Int) < (it.keys.length : Int)) := by omega
-      simp [MIter.seek, MIter.kv, MIter.valid, h2, List.getElem?_eq_getElem h]
+      simp [MIter.seek, MIter.kv, MIter.valid, h2]
     rw [hkv]
     exact haux.1 h
   · have hkv : (it.seek t).1.kv = none := by
@@ -257,10 +256,18 @@ theorem seek_least (it : MIter) (hs : Sorted it.keys) (t : Key) :
     rw [hkv]
     exact haux.2 h
 
-/-- the contract iterator seeks to the same index -/
-theorem seek_same_index (mi : MIter) (si : SIter) (h : RI mi si) (t : Key) :
-    RI (mi.seek t).1 (si.seek t) ∧ (mi.seek t).1.kv = (si.seek t).cur :=
-  ⟨(seek_sim h t).1, RI_cur (seek_sim h t).1⟩
+/-- … and the Pebble wrapper's `Seek` lands on the same entry as db/memory's, whatever the two
+iterators did before, as long as they represent the same contract iterator. -/
+theorem seek_same_entry (mi : MIter) (pi : PIter) (si : SIter) (hm : RI mi si) (hp : RPI pi si) (t : Key) :
+    (mi.seek t).1.kv = (pi.seek t).1.iter.kv ∧ (mi.seek t).2 = (pi.seek t).2 := by
+  have h1 := seek_sim hm t
+  have h2 := pseek_sim hp t
+  exact ⟨by rw [RI_cur h1.1, RPI_cur h2.1], by rw [h1.2, h2.2]⟩
+
+/-- stores reachable by the contract are sorted (so the iteration theorems apply to them) -/
+theorem reachable_store_sorted (ops : List Op) (d : KV)
+    (h : (exec specImpl World.init ops).db = some d) : Sorted d :=
+  spec_exec_sorted ops World.init (by intro d e; cases e; exact Sorted.nil) d h
 
 /-! ## Non-vacuity -/
 
@@ -268,25 +275,33 @@ example : upperBound [1, 255, 255] = some [2] := by decide
 example : upperBound [255, 255] = none := by decide
 example : hasPrefix [1, 255, 7] [1, 255] = true ∧ lexLt [1, 255, 7] [2] = true := by decide
 
-/-- a sequence inside the as-found boundary that uses every kind of handle and an `0xff`-terminated
-prefix, and on which the outputs are not trivial -/
+/-- a sequence inside the boundary of the current code that uses every kind of handle, an
+`0xff`-terminated and an all-`0xff` prefix, `First,Prev,Prev`, `Next` past the end then `Prev`, a
+lower-bound-only iterator, reverse iteration, both helpers, reopen and close -/
 def sampleOps : List Op :=
   [.put [1, 255] [7], .put [1, 255, 0] [], .put [2] [8], .put [] [9],
    .newBatch true, .bput 0 [1] [1], .bdelRange 0 [2] [3], .get (.batch 0) [2] false, .snap,
-   .bwrite 0, .iter .db [1, 255] true, .first 0, .next 0, .next 0, .prev 0, .seek 0 [1, 255, 0],
-   .scan (.snap 0) [] false, .scan .db [1] true, .update true true [.put [5] [5], .get [5] false],
-   .update false false [.del []], .iclose 0, .sclose 0, .close, .get .db [1] false]
+   .bwrite 0, .iter .db [1, 255] true, .first 0, .prev 0, .prev 0, .next 0, .next 0, .next 0, .next 0, .prev 0,
+   .seek 0 [1, 255, 0], .key 0, .scan (.snap 0) [] true, .scan .db [1] false, .rscan .db [] false [255],
+   .scan .db [255] true, .update true true [.put [5] [5], .get [5] false],
+   .update false false [.del []], .iclose 0, .sclose 0, .reopen, .close, .get .db [1] false]
 
-example : inContract Cfg.asFound World.init sampleOps = true := by decide
+example : inContract ⟨false⟩ World.init sampleOps = true := by decide
 example : run specImpl World.init sampleOps =
     [.r .ok, .r .ok, .r .ok, .r .ok, .handle 0, .r .ok, .r .ok, .r .notfound, .handle 0, .r .ok, .handle 0,
-     .pos true (some ([1, 255], [7])), .pos true (some ([1, 255, 0], [])), .pos false none,
-     .pos true (some ([1, 255, 0], [])), .pos true (some ([1, 255, 0], [])),
+     .pos true (some ([1, 255], [7])), .pos false none, .pos false none, .pos true (some ([1, 255], [7])),
+     .pos true (some ([1, 255, 0], [])), .pos false none, .pos false none, .pos true (some ([1, 255, 0], [])),
+     .pos true (some ([1, 255, 0], [])), .r (.key [1, 255, 0]),
      .r (.list [([], [9]), ([1, 255], [7]), ([1, 255, 0], []), ([2], [8])]),
      .r (.list [([1], [1]), ([1, 255], [7]), ([1, 255, 0], [])]),
-     .upd [.ok, .val [5]] .errCb, .upd [.ok] .ok, .r .ok, .r .ok, .r .ok, .r .errClosed] := by decide
+     .r (.list [([1, 255, 0], []), ([1, 255], [7]), ([1], [1]), ([], [9])]),
+     .r (.list []),
+     .upd [.ok, .val [5]] .errCb, .upd [.ok] .ok, .r .ok, .r .ok, .r .ok, .r .ok, .r .errClosed] := by decide
+example : run (memImpl ⟨false⟩) World.init sampleOps = run pebImpl World.init sampleOps := by decide
 example : Sorted ([([], [9]), ([1, 255], [7]), ([2], [8])] : KV) := by
   simp [Sorted, lexLt]
-example : iterArgsOK Cfg.asFound [1, 255] true = true ∧ iterArgsOK Cfg.repaired [255] true = true := by decide
+example : RI (MIter.mk' [([1], [1])] [] false) (specImpl.imk [([1], [1])] [] false) ∧
+    RPI (pebNewIter [([1], [1])] [] false) (specImpl.imk [([1], [1])] [] false) :=
+  ⟨RI_mk _ _ _, RPI_mk _ _ _⟩
 
 end Juno.C15.Props
